@@ -320,6 +320,7 @@ Definition pal_read (fuel : nat) (k : N) (cap : Z) : dec (list Z) :=
   else if k =? kGlobal then Ret []
   else '(size, _) <- read32 ;;
        if (size <? 0)%Z then Fail eNegPal                        (* since fix ca29854 *)
+       else if (cap <? size)%Z then Fail eNegPal                 (* since fix 5ccdbc5: longer than 1<<bits *)
        else l <- C01.rep fuel (Z.to_N size) read32 [] ;; Ret (map fst l).
 
 (* PaletteContainer.ReadFrom into d (only d's BitStorage matters: the palette is created afresh) *)
